@@ -5,17 +5,23 @@ real EpollWait, dispatch of one event through the real handler, opcache.free, cl
 on the Lean model and the observed slot state (state word, free chain / freelist membership, callbacks) compared."""
 import os, shutil, subprocess, collections
 from concurrent.futures import ThreadPoolExecutor
-import common, lbtool
+import common, lbtool, epollhook
 
 LEVEL = 'proof'
 PROP = 'C10'
-MODULES = ['Netpoll.Props.C10']
+MODULES = ['Netpoll.Props.C10', 'Netpoll.Tie.Poll']
 MANIFEST = dict(
-    text='Lean 4 invariant proof over an interleaving model of one poller slot through any number of owners: for every sequence of alloc / register / fetch / dispatch / end-of-batch / close steps and stale Release calls, '
-         'a fetched event is only ever dispatched to the callbacks of the owner it was fetched for (or dropped), no stale call takes a later owner\'s token, and a slot returns to the free chain only between batches with nothing installed. '
-         'The model is tied to fd_operator.go / fd_operator_cache.go / poll_default_linux.go by executing the poller loop body step by step on real connections and comparing every step with the model.',
-    note='partial: A-epoll-del (no event is fetched for a descriptor after EPOLL_CTL_DEL returned) and one-poller-per-cache are assumptions; the residual window of a Release racing the close of its own connection is outside the model (stale = the close has completed). The defect fixed by 1c26766 is kept as a Lean witness.',
-    technique='Lean 4 inductive invariant over a slot-reuse interleaving model + step-by-step trace conformance with the real poller code', design='§6 C10')
+    text='Lean 4 invariant proof over an interleaving model of one poller slot through any number of owners: for every sequence of alloc / register / fetch / dispatch / end-of-batch / close steps, stale Release calls and '
+         'hang-ups recorded in a batch and delivered later by the hang-up goroutine (at any point of any continuation: after the owner closed, after the slot was reused), '
+         'a fetched event is only ever dispatched to the callbacks of the owner it was fetched for (or dropped), a recorded hang-up only ever reaches the onHup of the owner it was recorded for, '
+         'no stale call takes a later owner\'s token, and a slot returns to the free chain only between batches with nothing installed. '
+         'The model is tied to fd_operator.go / fd_operator_cache.go / poll_default.go / poll_default_linux.go (a) by executing the poller loop body step by step on real connections and comparing every step with the model '
+         '(including several hang-ups dispatched in one handler call with the goroutine held at a blocked OnDisconnect while users close, the batch ends and new connections take the slots), '
+         '(b) by sequences in which the REAL defaultPoll.Wait is the poller (schedule point after epoll_wait through an overlay copy of sys_epoll_linux.go, p.Handler wrapped): closes placed between the return of its epoll_wait and its next statement, '
+         'opens placed between its fetch and its dispatch, and (c) by T-gen tie lemmas on the code the harness replaces or cannot schedule: the order fetch / dispatch / opcache.free of Wait\'s loop body and appendHup copying operator.OnHup into a list of funcs (Netpoll.Tie.Poll).',
+    note='partial: A-epoll-del (no event is fetched for a descriptor after EPOLL_CTL_DEL returned) and one-poller-per-cache are assumptions; the residual window of a Release racing the close of its own connection is outside the model (stale = the close has completed). '
+         'The defect fixed by 1c26766 and a hang-up queue that holds slots instead of the copied funcs are kept as Lean witnesses.',
+    technique='Lean 4 inductive invariant over a slot-reuse interleaving model + step-by-step trace conformance with the real poller code (harness as poller, and the real Wait loop as poller) + T-gen ties', design='§6 C10')
 
 def shard(binary, wd, seed, seqs, nops, hazard=False):
     os.makedirs(wd, exist_ok=True)
@@ -41,6 +47,7 @@ def analyse(wd, rc=0):
                 seen.add(t[2])
             if t[0] == 'dispatch' and 'ran=none' in i: res['skipped_events'] += 1
             if t[0] == 'stale': res['stale'] += 1
+            if t[0] == 'dispatchall' and ':hupq' in o: res['delayed'] = res.get('delayed', 0) + 1
         if len(si) > 1: res['finals'].add(si[-1])
         bad = next((k for k, l in enumerate(si) if l.startswith('panic') or l.startswith('BYSTANDER-FAIL') or l == 'hang'), None)
         d = lbtool.first_diff(si, sm)
@@ -60,17 +67,17 @@ def run(rep):
     wd = os.path.join(common.WORK, PROP); shutil.rmtree(wd, ignore_errors=True); os.makedirs(wd)
     ok, detail = common.proof_stage(rep, MODULES, ['npdriver'])
     proof_broken = None if ok else detail
-    binary, out = common.build_harness('opcacheh')
+    binary, out = epollhook.build('opcacheh')
     if binary is None:
         rep.violation('harness does not build against /repo:\n' + out[-2000:], ['# go build failed'], no_input=True); return
     shards, seqs, nops = (16, 1500, 120) if rep.tier == 'thorough' else (8, 120, 80)
     with ThreadPoolExecutor(max_workers=16) as ex:
         results = list(ex.map(lambda i: shard(binary, os.path.join(wd, 's%d' % i), rep.seed * 1000 + i, seqs, nops, hazard=(i % 4 == 3)), range(shards)))
-    if any(r['problems'] for r in results) and not any(p[2] == 'impl-violates-spec' for r in results for p in r['problems']):
-        # model and implementation differ but no bystander was disturbed yet: directed search for a failing input
+    if (proof_broken or any(r['problems'] for r in results)) and not any(p[2] == 'impl-violates-spec' for r in results for p in r['problems']):
+        # a theorem / tie lemma broke, or model and implementation differ, but no bystander was disturbed yet: directed search for a failing input
         with ThreadPoolExecutor(max_workers=16) as ex:
             results += list(ex.map(lambda i: shard(binary, os.path.join(wd, 'h%d' % i), rep.seed * 1000 + 500 + i, 400, 40, hazard=True), range(16)))
-        rep.cov['directed_search'] = 'model/implementation disagreement: 16 x 400 sequences with the slot-reuse prelude'
+        rep.cov['directed_search'] = 'proof obligation / tie lemma broken or model/implementation disagreement: 16 x 400 sequences with the slot-reuse and hang-up-queue preludes'
     import glob
     for f in sorted(glob.glob(os.path.join(common.VERIF, 'corpus', PROP, '*.ops'))):
         cw = os.path.join(wd, 'corpus_' + os.path.basename(f)); os.makedirs(cw, exist_ok=True)
@@ -84,8 +91,11 @@ def run(rep):
         reuse += r['reuse']; skipped += r['skipped_events']; stale += r['stale']
     rep.cov.update(evaluations=n, distinct_nontrivial=len(finals), step_histogram=dict(hist), slot_reuses=reuse, events_skipped_after_close=skipped, stale_calls=stale,
                    traces_validated_against_impl=n, samples=results[0]['samples'],
-                   rule='random step sequences over up to 6 real connections sharing one private poller whose loop body the harness executes step by step (fetch = real EpollWait, dispatch = real handler on one event, end of batch = opcache.free), '
-                        'with closes placed between fetch and dispatch, slot reuse by new connections and stale Release/Close/Next/Write/Flush on closed connections; every step compared with the Lean model; bystanders must receive exactly what was sent. distinct_nontrivial = distinct final slot observations')
+                   rule='random step sequences over up to 6 real connections sharing one private poller whose loop body the harness executes step by step (fetch = real EpollWait, dispatch = real handler on one event or on the rest of the batch, end of batch = opcache.free), '
+                        'with closes placed between fetch and dispatch, slot reuse by new connections, hang-up goroutines held at a blocked OnDisconnect and stale Release/Close/Next/Write/Flush on closed connections; every 4th sequence the real defaultPoll.Wait is the poller '
+                        '(closes after its epoll_wait returned, opens in front of its handler); every step compared with the Lean model; bystanders must receive exactly what was sent and stay open and registered. distinct_nontrivial = distinct final slot observations')
+    rep.cov['real_wait_rounds'] = hist.get('waitround', 0)
+    rep.cov['handler_calls_with_delayed_hangups'] = sum(r.get('delayed', 0) for r in results)
     rep.assumptions += ['A-epoll-del: no event is fetched for a descriptor after EPOLL_CTL_DEL returned', 'single harness goroutine: steps are atomic at the granularity of the model']
     genuine = [p for p in problems if p[2] == 'impl-violates-spec']
     others = [p for p in problems if p[2] != 'impl-violates-spec']
@@ -99,7 +109,7 @@ def run(rep):
         rep.violation('proof obligation broken, no failing input found in %d sequences: %s' % (n, proof_broken), ['# ' + l for l in proof_broken.split('\n')], no_input=True)
 
 def replay(rep, path):
-    binary, out = common.build_harness('opcacheh'); common.lake_build(['npdriver'])
+    binary, out = epollhook.build('opcacheh'); common.lake_build(['npdriver'])
     wd = os.path.join(common.WORK, 'replay10'); os.makedirs(wd, exist_ok=True)
     lines = [l for l in open(path).read().split('\n') if l and not l.startswith('#')]
     src = os.path.join(wd, 'in.ops'); open(src, 'w').write('\n'.join(lines) + '\n')
